@@ -133,6 +133,18 @@ def check_pair(ctx, pattern, parsed, mode, path, br=None):
         return False
     ok = (got is None and not exp) or (got is not None and any(U.same_assignment(got, a) for a in exp))
     nontriv = bool(exp) or got is not None
+    if ok and got is not None and any(isinstance(v, list) for v in got.values()):
+        # the values handed to a handler are its own: a handler that changes a list it was given must not change what the
+        # next request for the same path is given
+        before = dict((k, list(v) if isinstance(v, list) else v) for k, v in got.items())
+        for v in got.values():
+            if isinstance(v, list):
+                v.append('zq9-left-behind-by-a-handler')
+        again = br.match_path(path)
+        if again != before:
+            ctx.mismatch('match-not-pure', 'pattern %r mode %s path %r: matched %r; after the handler appended to its list values the same '
+                         'path matches %r' % (pattern, mode, path, before, again), {'pattern': pattern, 'mode': mode, 'path': path})
+            return nontriv
     if not ok:
         sig = classify(parsed, mode, path)
         if sig == 'multi-binding-repeated-slash' and not d3_consistent(parsed, got, exp):
